@@ -14,6 +14,39 @@ LCOUNT = ('atleast', 'atmost', 'exactly', '!atleast', '!atmost', '!exactly')
 UNARY_SMOOTH = ('exp', 'log', 'sin', 'cos', 'tan', 'asin', 'acos', 'atan', 'sinh', 'cosh', 'tanh', 'asinh', 'acosh', 'atanh', 'sqrt', 'log10')
 
 
+class DomainError(ArithmeticError):
+    pass
+
+
+def gen_pow(b, p):
+    """b**p: exact for Fractions with integer exponent, float otherwise; DomainError where the real power is undefined."""
+    if isinstance(p, Fr) and p.denominator == 1 and isinstance(b, Fr) and abs(p) <= 64 and (b.numerator.bit_length() + b.denominator.bit_length()) * abs(p) <= 4096:
+        if b == 0 and p < 0:
+            raise DomainError('0**negative')
+        return b ** int(p)
+    bf, pf = float(b), float(p)
+    if bf < 0 and pf != int(pf):
+        raise DomainError('negative**fractional')
+    if bf == 0 and pf < 0:
+        raise DomainError('0**negative')
+    try:
+        return math.pow(bf, pf)
+    except (OverflowError, ValueError):
+        raise DomainError('pow overflow')
+
+
+def smooth(k, a):
+    a = float(a)
+    try:
+        if k == 'log10':
+            return math.log10(a)
+        if k == 'sqrt':
+            return math.sqrt(a)
+        return getattr(math, k)(a)
+    except (ValueError, OverflowError):
+        raise DomainError(k + ' domain')
+
+
 def fnum(v):
     """NL text of a number (exact for the dyadic values we use)."""
     if isinstance(v, Fr):
@@ -178,7 +211,13 @@ class Model:
             return self.ev(e[1], x, dv) ** 2
         if k == 'powc':
             p = self.ev(e[2], x, dv)
-            return self.ev(e[1], x, dv) ** int(p)
+            return gen_pow(self.ev(e[1], x, dv), p)
+        if k == 'pow':
+            return gen_pow(self.ev(e[1], x, dv), self.ev(e[2], x, dv))
+        if k == 'cpow':
+            return gen_pow(self.ev(e[1], x, dv), self.ev(e[2], x, dv))
+        if k in UNARY_SMOOTH:
+            return smooth(k, self.ev(e[1], x, dv))
         if k == 'sum':
             return sum((self.ev(a, x, dv) for a in e[1]), Fr(0))
         if k == 'min':
